@@ -3,7 +3,7 @@
 # 1. demo passes on the clean tree, fails with the patch (in the scratch worktree /tmp/seed-<id> at /repo's HEAD)
 # 2. ./check <prop> with VERIF_REPO=<worktree with patch> must exit 1 with a VIOLATION line
 id=$1; shift; props=${*:-$id}
-wt=/tmp/seed-$id; out=/tmp/seedout-$id; log=/tmp/seedverify-$id.log
+T=${SEEDTAG:-}; wt=/tmp/seed$T-$id; out=/tmp/seedout$T-$id; log=/tmp/seedverify$T-$id.log
 export GOFLAGS=-mod=mod GOPROXY=off GOSUMDB=off GOTOOLCHAIN=local
 {
 cd $wt && git checkout -q -- . && git clean -fdq && git checkout -q --detach $(git -C /repo rev-parse HEAD) || exit 9
@@ -17,7 +17,7 @@ echo "== demo with patch"; go test -count=1 -run 'Seed' ./$pkg/ 2>&1 | grep -v "
 rm -f $wt/$rel
 # the checks run from a snapshot of /verif: edits made meanwhile do not disturb the run, and the evidence / replays of the
 # patched tree do not overwrite those of the unchanged tree
-snap=/tmp/vsnap-$id; rm -rf $snap; mkdir -p $snap; rsync -a --exclude .work --exclude .git --exclude replays /verif/ $snap/
+snap=/tmp/vsnap$T-$id; rm -rf $snap; mkdir -p $snap; rsync -a --exclude .work --exclude .git --exclude replays /verif/ $snap/
 for p in $props; do
   echo "== our check $p against the patched tree"
   (cd $snap && VERIF_REPO=$wt ./check $p 2>&1 | grep "VIOLATION\|signature\|KNOWN\|ERROR\|drift\|Traceback\|rror" | cut -c1-300 | sort | uniq -c | head -20; )
